@@ -372,14 +372,18 @@ Proof.
   exact (lr_import str g0 Hi Hs).
 Qed.
 
-(* `position startpos ...` needs no hypothesis *)
+Lemma position_base_startpos rest :
+  exists add ms, position_base (KW_STARTPOS :: rest) = Some (Ok START, add, ms).
+Proof.
+  unfold position_base. change (text_eqb KW_STARTPOS KW_STARTPOS) with true. cbv iota.
+  rewrite start_import. destruct rest as [|t2 ms]; eauto.
+Qed.
+
+(* `position startpos ...` needs no side condition *)
 Theorem position_startpos_legal s rest g :
   ss_game (fst (position_cmd s (KW_STARTPOS :: rest))) = Some g -> legal_reachable g.
 Proof.
-  assert (Hb : exists add ms, position_base (KW_STARTPOS :: rest) = Some (Ok START, add, ms)).
-  { unfold position_base. change (text_eqb KW_STARTPOS KW_STARTPOS) with true. cbv iota.
-    rewrite start_import. destruct rest as [|t2 ms]; eauto. }
-  destruct Hb as (add & ms & Hb). exact (position_game_legal s _ START add ms g Hb start_sane).
+  destruct (position_base_startpos rest) as (add & ms & Hb). exact (position_game_legal s _ START add ms g Hb start_sane).
 Qed.
 
 (* as an invariant: an ill-formed `position` keeps the game it found *)
@@ -449,3 +453,182 @@ Proof.
 Qed.
 
 Print Assumptions position_accepts_exactly_legal.
+
+(* ---- 7. the invariant of a whole command sequence --------------------------------------------------------------------- *)
+
+(* a command sequence is [sane] when every position it imports is sane (Spec/Rules.v: both kings,
+   the side not to move not in check, ...); `startpos` always is *)
+Definition sane_cmd (c : cmd) : Prop :=
+  match c with CPosition args => sane_position args | _ => True end.
+
+Lemma startpos_sane_position rest : sane_position (KW_STARTPOS :: rest).
+Proof.
+  intros g0 add ms. destruct (position_base_startpos rest) as (a & m & E). rewrite E.
+  generalize start_sane. generalize START. intros st Hs H. injection H as -> _ _. exact Hs.
+Qed.
+
+Record session_ok (s : session) : Prop := mkSessionOk {
+  so_legal : forall g, ss_game s = Some g -> legal_reachable g;
+  so_short : forall g, ss_game s = Some g -> Z.of_nat (glen g) < GAME_LENGTH_GUARD;
+  so_table : SoundTable (ss_table s)
+}.
+
+Lemma init_session_ok : session_ok init_session.
+Proof. split; [discriminate | discriminate | exact top_empty_table_sound]. Qed.
+
+Theorem run_cmd_ok s c : sane_cmd c -> session_ok s -> session_ok (fst (run_cmd s c)).
+Proof.
+  intros Hc [Hl Hs Ht]. destruct c as [args| | |limit stop_at| |]; cbn [run_cmd fst].
+  - split.
+    + exact (position_game_legal_inv s args Hc Hl).
+    + exact (position_length_guard_inv s args Hs).
+    + rewrite position_table. exact Ht.
+  - exact init_session_ok.
+  - assert (E : fst (show_cmd s) = s) by (unfold show_cmd; destruct (ss_game s); reflexivity).
+    rewrite E. split; assumption.
+  - destruct (ss_game s) as [g|] eqn:Eg.
+    + destruct (go_drops_game s g limit stop_at Eg) as [Hn Htb]. split.
+      * intros g' Hg'. rewrite Hn in Hg'. discriminate.
+      * intros g' Hg'. rewrite Hn in Hg'. discriminate.
+      * rewrite Htb. apply top_driver_table; [|exact Ht]. exact (legal_reachable_good g (Hl g eq_refl)).
+    + rewrite (go_without_game s limit stop_at Eg). cbn [fst]. split; [| |exact Ht]; intros g' Hg'; congruence.
+  - split; assumption.
+  - split; assumption.
+Qed.
+
+Theorem run_cmds_ok s cs : Forall sane_cmd cs -> session_ok s -> session_ok (fst (run_cmds s cs)).
+Proof.
+  revert s. induction cs as [|c cs IH]; intros s Hc Hs; [exact Hs|].
+  rewrite run_cmds_cons. cbn [fst]. inversion Hc as [|c' cs' Hc1 Hc2]; subst.
+  apply IH; [exact Hc2|]. now apply run_cmd_ok.
+Qed.
+
+(* every game that enters a search in a sane run of the front end was reached by legal play from
+   a sane import and has at most 399 states; the table it is searched with is sound *)
+Corollary searched_game_ok pre limit stop_at g :
+  Forall sane_cmd pre ->
+  ss_game (fst (run_cmds init_session pre)) = Some g ->
+  legal_reachable g /\ Z.of_nat (glen g) < GAME_LENGTH_GUARD
+  /\ SoundTable (ss_table (fst (run_cmds init_session pre)))
+  /\ snd (run_cmds init_session (pre ++ [CGo limit stop_at])) =
+     snd (run_cmds init_session pre)
+     ++ map OInfo (d_lines (driver g (ss_table (fst (run_cmds init_session pre))) limit stop_at false))
+     ++ [OBestMove (option_map uci (d_move (driver g (ss_table (fst (run_cmds init_session pre))) limit stop_at false)))].
+Proof.
+  intros Hc Hg. destruct (run_cmds_ok init_session pre Hc init_session_ok) as [Hl Hs Ht].
+  split; [exact (Hl g Hg)|]. split; [exact (Hs g Hg)|]. split; [exact Ht|].
+  rewrite run_cmds_app, run_cmds_cons, run_cmds_nil. cbn [run_cmd fst snd].
+  rewrite (go_output _ g limit stop_at Hg), app_nil_r. reflexivity.
+Qed.
+
+(* the move announced by `go` is a legal move of the game searched (or the table holds an entry of
+   another position with the same hash: the collision witness of Proofs/SearchInv2.v) *)
+Theorem go_bestmove_sound s g limit stop_at t :
+  session_ok s -> ss_game s = Some g ->
+  In (OBestMove (Some t)) (snd (go_cmd s limit stop_at)) ->
+  exists m, t = uci m /\ (In m (checked_moves g) \/ collision_witness Good g m).
+Proof.
+  intros [Hl _ Ht] Hg Hin. rewrite (go_output s g limit stop_at Hg) in Hin.
+  apply in_app_or in Hin. destruct Hin as [Hin | [Hin | []]].
+  - apply in_map_iff in Hin. destruct Hin as (x & Hx & _). discriminate.
+  - destruct (d_move (driver g (ss_table s) limit stop_at false)) as [m|] eqn:Em; [|discriminate].
+    cbn [option_map] in Hin. injection Hin as <-. exists m. split; [reflexivity|].
+    exact (top_driver_move g (ss_table s) limit stop_at false m (legal_reachable_good g (Hl g Hg)) Ht Em).
+Qed.
+
+Print Assumptions run_cmds_ok.
+Print Assumptions searched_game_ok.
+Print Assumptions go_bestmove_sound.
+
+(* ---- 6. non-vacuity ---------------------------------------------------------------------------------------------------- *)
+From Coq Require Import String.
+Open Scope string_scope.
+Open Scope list_scope.
+
+(* position startpos moves e2e4 e7e5 ; go depth 2 *)
+Definition demo_cmds : list cmd :=
+  [CPosition [txt "startpos"; txt "moves"; txt "e2e4"; txt "e7e5"]; CGo (Some 2) (-1)].
+
+Example demo_bestmove :
+  last (snd (run_cmds init_session demo_cmds)) OUciOk = OBestMove (Some (txt "b1c3"))
+  /\ List.length (snd (run_cmds init_session demo_cmds)) = 9%nat
+  /\ ss_game (fst (run_cmds init_session demo_cmds)) = None
+  /\ ss_table (fst (run_cmds init_session demo_cmds)) <> tempty.
+Proof. vm_compute. repeat split. discriminate. Qed.
+
+Example demo_sane : Forall sane_cmd demo_cmds.
+Proof. repeat constructor. exact (startpos_sane_position _). Qed.
+
+(* the game before the go: three states *)
+Example demo_position :
+  option_map glen (ss_game (fst (position_cmd init_session [txt "startpos"; txt "moves"; txt "e2e4"; txt "e7e5"]))) = Some 3%nat
+  /\ snd (position_cmd init_session [txt "startpos"; txt "moves"; txt "e2e4"; txt "e7e5"]) = [].
+Proof. vm_compute. split; reflexivity. Qed.
+
+(* a second go without position is refused; ucinewgame; the same commands give the same lines *)
+Example demo_newgame :
+  snd (run_cmds init_session (demo_cmds ++ [CGo (Some 2) (-1)] ++ [CNewGame] ++ demo_cmds)) =
+  snd (run_cmds init_session demo_cmds) ++ [OErrorNoGameGo] ++ snd (run_cmds init_session demo_cmds).
+Proof. vm_compute. reflexivity. Qed.
+
+(* an illegal move of a piece that is there (black pawn d7-d4) is refused, the moves before it
+   stay played (two states), the rest of the line is not read *)
+Example demo_illegal_keeps :
+  let r := position_cmd init_session [txt "startpos"; txt "moves"; txt "e2e4"; txt "d7d4"; txt "e7e5"] in
+  option_map glen (ss_game (fst r)) = Some 2%nat
+  /\ option_map (fun g => map uci (g_moves g)) (ss_game (fst r)) = Some [txt "e2e4"]
+  /\ snd r = [OErrorMove (txt "d7d4")].
+Proof. vm_compute. repeat split. Qed.
+
+(* four characters that are no squares: the game is dropped *)
+Example demo_garbage_drops :
+  position_cmd init_session [txt "startpos"; txt "moves"; txt "e2e4"; txt "zzzz"; txt "e7e5"]
+  = (init_session, [OErrorMove (txt "zzzz")]).
+Proof. vm_compute. reflexivity. Qed.
+
+(* well-formed squares but an empty start square (e2 after e2e4): the game is dropped as well *)
+Example demo_empty_square_drops :
+  position_cmd init_session [txt "startpos"; txt "moves"; txt "e2e4"; txt "e2e5"]
+  = (init_session, [OErrorMove (txt "e2e5")]).
+Proof. vm_compute. reflexivity. Qed.
+
+(* position fen ... : the fields are joined with single spaces; a bad FEN drops the game *)
+Example demo_fen :
+  option_map fen (ss_game (fst (position_cmd init_session
+     [txt "fen"; txt "4k3/P7/8/8/8/8/8/4K3"; txt "w"; txt "-"; txt "-"; txt "0"; txt "1"; txt "moves"; txt "a7a8q"])))
+  = Some (txt "Q3k3/8/8/8/8/8/8/4K3 b - - 0 1")
+  /\ position_cmd (mkSession (Some START) tempty) [txt "fen"; txt "4k3/P7/8/8/8/8/8/4K3"; txt "w"]
+     = (init_session, [OErrorFen E_MISSING])
+  /\ position_cmd (mkSession (Some START) tempty) [txt "fen"] = (init_session, [OErrorFen E_MISSING])
+  /\ position_cmd (mkSession (Some START) tempty) [txt "startpo"] = (mkSession (Some START) tempty, [OErrorPosition])
+  /\ position_cmd (mkSession (Some START) tempty) [] = (mkSession (Some START) tempty, [OErrorPosition]).
+Proof. vm_compute. repeat split. Qed.
+
+(* `position startpos e2e4` (the word "moves" forgotten): accepted without a message, no move played *)
+Example demo_moves_forgotten :
+  position_cmd init_session [txt "startpos"; txt "e2e4"; txt "moves"; txt "e7e5"] = (mkSession (Some START) tempty, []).
+Proof. vm_compute. reflexivity. Qed.
+
+(* Outside move shape the filter is lenient: characters after a promotion letter are ignored and
+   the letter may be upper case ("a7a8qq", "a7a8Qxyz" are played as a7a8q), so the premise
+   [parse_move s <> None] of position_accepts_exactly_legal cannot be dropped from its part (b). *)
+Example demo_trailing_characters :
+  let g0 := imported (txt "4k3/P7/8/8/8/8/8/4K3 w - - 0 1") in
+  legal_reachable g0
+  /\ parse_move (txt "a7a8qq") = None
+  /\ (exists m, In m (checked_moves g0) /\ uci m = txt "a7a8q"
+               /\ move_step g0 (txt "a7a8qq") = SPlayed (push_history g0 m)
+               /\ move_step g0 (txt "a7a8Qxyz") = SPlayed (push_history g0 m)).
+Proof.
+  split; [|split].
+  - apply (lr_import (txt "4k3/P7/8/8/8/8/8/4K3 w - - 0 1")); vm_compute; reflexivity.
+  - vm_compute. reflexivity.
+  - exists (Promotion White Queen (6, 0) (7, 0) None). split.
+    + vm_compute. repeat (first [left; reflexivity | right]).
+    + vm_compute. repeat split.
+Qed.
+
+Print Assumptions position_length_exact.
+Print Assumptions position_plays_legal_text.
+Print Assumptions demo_bestmove.
+Print Assumptions demo_trailing_characters.
